@@ -212,10 +212,14 @@ def step (_ : Unit) (ws : List String) : Unit × String :=
       | some w, some ty, some hd, some d => optHex (wrapBase64 d ty hd (sp == "1") w)
       | _, _, _, _ => "bad-op"
     | ["publine", alg, blob, c] => match unhex alg, unhex blob, unhex c with
-      | some alg, some blob, some c => hex (opensshPublicLine alg blob c)
+      | some alg, some blob, some c => match exportPublicLine? alg blob c with
+        | some t => "ok " ++ hex t
+        | none => "refused"
       | _, _, _ => "bad-op"
     | ["rfc4716", blob, c] => match unhex blob, unhex c with
-      | some blob, some c => optHex (rfc4716Block blob c)
+      | some blob, some c => match exportRfc4716? blob c with
+        | some t => "ok " ++ hex t
+        | none => "refused"
       | _, _ => "bad-op"
     | ["match", kt, d] => match keytypeOf kt, unhex d with
       | some (kt, pub), some d => showFound (matchNext kt pub d)
